@@ -72,3 +72,88 @@ def gen_tree_nodes(sizes):
         acc *= s
         n += acc
     return n
+
+
+# ----------------------------------------------------------------------------------------------
+# model-equality cases: whole observation vs reference model
+
+MODEL_SCRIPT = """{observe_src}
+
+text = {text!r}
+via, want, drop, shape = {via!r}, {want!r}, {drop!r}, {shape!r}
+acceptable = {acceptable!r}
+got = model_outcome(text, via, want, drop, shape)
+if got not in acceptable:
+    print("expected one of:")
+    for a in acceptable:
+        print("  ", a)
+    print("got:")
+    print("  ", got)
+sys.exit(0 if got in acceptable else 1)
+"""
+
+
+def model_acceptable(res, drop=()):
+    """Outcomes acceptable for a refmodel.Result."""
+    acc = [["ok", impl.drop_keys(res.obs, drop)]] if res.kind == "ok" else [["err", res.obs]]
+    for a in sorted(res.alt_errors):
+        acc.append(["err", a])
+    return acc
+
+
+def model_script(text, acceptable, via="file", want=None, drop=(), shape="model"):
+    return MODEL_SCRIPT.format(observe_src=impl.OBSERVE_SRC, text=text, via=via, want=want, drop=list(drop), acceptable=acceptable, shape=shape)
+
+
+def check_outcome(ctx, key, text, acceptable, via="file", want=None, msg="", drop=(), shape="full"):
+    """Differential form: `acceptable` is a list of outcomes computed by the caller."""
+    from . import refmodel
+
+    got = impl.model_outcome(text, via, want, drop, shape)
+    if got not in acceptable:
+        why = ""
+        if got[0] == "ok" and acceptable[0][0] == "ok":
+            why = refmodel.diff(got[1], acceptable[0][1]) or ""
+        else:
+            why = "outcome %s, expected %s" % (got[:2] if got[0] == "err" else "ok", [a[:2] if a[0] == "err" else "ok" for a in acceptable])
+        ctx.violation(
+            key,
+            dict(text=text, via=via, want=want, drop=list(drop), shape=shape, acceptable=acceptable),
+            "%s: %s" % (msg, why),
+            expected=acceptable[0],
+            observed=got,
+            script=model_script(text, acceptable, via, want, drop, shape),
+        )
+    return got
+
+
+def check_model(ctx, key, text, res, via="file", want=None, msg="", drop=()):
+    """Compare the real outcome with the model's. Returns the real outcome."""
+    from . import refmodel
+
+    got = impl.model_outcome(text, via, want, drop)
+    acc = model_acceptable(res, drop)
+    if got not in acc:
+        why = ""
+        if got[0] == "ok" and res.kind == "ok":
+            why = refmodel.diff(got[1], acc[0][1]) or ""
+        elif got[0] != acc[0][0]:
+            why = "outcome %s %s, model says %s %s" % (got[0], got[1] if got[0] == "err" else "", acc[0][0], acc[0][1] if acc[0][0] == "err" else "")
+        else:
+            why = "error class %s, model says %s" % (got[1], [a[1] for a in acc])
+        ctx.violation(
+            key,
+            dict(text=text, via=via, want=want, drop=list(drop), acceptable=acc),
+            "%s: %s" % (msg, why),
+            expected=acc[0],
+            observed=got,
+            script=model_script(text, acc, via, want, drop),
+        )
+    return got
+
+
+def replay_model_case(case, key):
+    got = impl.model_outcome(case["text"], case.get("via", "file"), case.get("want"), case.get("drop", ()), case.get("shape", "model"))
+    if got in case["acceptable"]:
+        return []
+    return [dict(key=key, msg="replayed case still differs from the model", case=case)]
